@@ -141,13 +141,28 @@ def surface_helper(pkg) -> str:
     for cls in ("HH93Grain", "Grain"):
         if cls not in pkg.classes:
             continue
-        fn = pkg.classes[cls].methods.get("rate_surface_twobody")
-        if fn is None:
+        meths = pkg.classes[cls].methods
+
+        def reach(m, seen=None):
+            # private methods of the class reached from method m through self.<_name>(..), in call order, helpers of helpers included
+            seen = [] if seen is None else seen
+            for c in _ast.walk(meths[m]) if m in meths else ():
+                if isinstance(c, _ast.Call) and isinstance(c.func, _ast.Attribute) and isinstance(c.func.value, _ast.Name) and c.func.value.id == "self" \
+                        and c.func.attr.startswith("_") and not c.func.attr.startswith("__") and c.func.attr in meths and c.func.attr not in seen:
+                    seen.append(c.func.attr)
+                    reach(c.func.attr, seen)
+            return seen
+        a = reach("rate_surface_twobody")
+        if not a:
             continue
-        for c in _ast.walk(fn):
-            if isinstance(c, _ast.Call) and isinstance(c.func, _ast.Attribute) and isinstance(c.func.value, _ast.Name) and c.func.value.id == "self" \
-                    and c.func.attr.startswith("_") and not c.func.attr.startswith("__") and c.func.attr in pkg.classes[cls].methods:
-                return c.func.attr
+        # the helper the two surface processes SHARE (the outermost such: not itself reached from another shared one), whatever
+        # other private helpers either of them was split into
+        b = reach("rate_reactive_desorption")
+        shared = [x for x in a if x in b]
+        for x in shared:
+            if not any(x in reach(y) for y in shared if y != x):
+                return x
+        return a[0]
     return "_rate_surface"
 
 
